@@ -124,3 +124,47 @@ def fclose_ok_mark(label):
 def const_key(e, name):
     """The expression is the named integral constant (any namespace qualification)."""
     return is_expr(e) and e[0] == "int" and len(e) > 2 and isinstance(e[2], str) and e[2].rsplit("::", 1)[-1] == name
+
+
+def alias_naming(fn, P):
+    """naming(fn, P) extended by reference/pointer aliases: locals declared exactly once, never re-assigned, whose initialiser is an
+    access path (field, element, dereference, address-of) - e.g. `CBlockIndex& block_index{entry.second};`."""
+    sub = dict(naming(fn, P))
+    decls = {}
+    for st in stmts(fn.body):
+        if st.get("k") == "decl" and st.get("n"):
+            decls.setdefault(st["n"], []).append(st)
+
+    def is_path(e):
+        if not is_expr(e):
+            return False
+        if e[0] in ("local", "param", "this"):
+            return True
+        if e[0] == "." or e[0] == "idx":
+            return is_path(e[1])
+        if e[0] == "u" and e[1] in ("*", "&"):
+            return is_path(e[2])
+        return False
+    assigned = {x[2][1] for st_, e in all_exprs(fn.body) for x in subexprs(e) if x[0] == "b" and x[1] in ASSIGN_OPS and is_expr(x[2]) and x[2][0] == "local"}
+    for n, ds in decls.items():
+        if n in sub or len(ds) != 1 or n in assigned:
+            continue
+        i = ds[0].get("i")
+        if is_path(i) and i[0] not in ("local", "param", "this"):
+            sub[n] = i
+    return sub
+
+
+def zero_test_marks(label, pred, pol):
+    """Branch marks for a flag test spelled `x`, `x != 0` or `x == 0`: label is added where `pred(x)` has truth value pol."""
+    def ne(a):
+        return is_expr(a) and a[0] == "b" and a[1] == "!=" and match(["int", 0], a[3]) and pred(a[2])
+
+    def eq(a):
+        return is_expr(a) and a[0] == "b" and a[1] == "==" and match(["int", 0], a[3]) and pred(a[2])
+
+    def strip(a):
+        while is_expr(a) and a[0] == "cast":
+            a = a[2]
+        return a
+    return [(label, lambda a: pred(strip(a)), pol), (label, lambda a: ne(strip(a)), pol), (label, lambda a: eq(strip(a)), not pol)]
